@@ -269,3 +269,224 @@ def try_success_edge(fn, call_term):
                         return cand, cont, brk
                     break
     return None
+
+
+# --------------------------------------------------------------------------- value provenance through transparent calls
+
+TRANSPARENT = (r"ops::Deref::deref$", r"ops::deref::Deref::deref$", r"borrow::Borrow::borrow$", r"convert::AsRef::as_ref$",
+               r"::as_str$", r"::as_bytes$", r"Option::<T>::unwrap$", r"Option::<T>::expect$", r"Result::<T, E>::unwrap$",
+               r"::as_ref$", r"clone::Clone::clone$", r"::to_owned$", r"convert::Into::into$", r"convert::Into<U>>::into$",
+               r"convert::From::from$", r"::borrow_term$", r"Option::<T>::as_ref$", r"::borrow_mown$", r"::unwrap$",
+               r"string::ToString::to_string$", r"::to_string$", r"::as_iri_ref$", r"::as_iri$", r"Result::<T, E>::ok$")
+
+
+def provenance(fn, operand, transparent=TRANSPARENT, depth=0):
+    """Follow an operand back to its origin, passing *through* calls that merely re-view their first argument
+    (deref, borrow, as_str, unwrap, clone, ...).  Returns the list of origins met on the way (outermost last);
+    the last element is the ultimate origin as returned by Fn.origin."""
+    chain = []
+    op = operand
+    for _ in range(24):
+        o = fn.origin(op)
+        if o[0] == "place" and o[1]:
+            # a projection (payload of Some/Ok, tuple field) of a call result: look through it
+            sd = fn.single_def(o[1][0])
+            if sd is not None and sd[2][0] == "call":
+                chain.append(o)
+                o = ("call", sd[2][1], sd[0])
+        chain.append(o)
+        if o[0] == "call" and o[1]["args"] and any(call_name_matches(o[1], p) for p in transparent):
+            op = o[1]["args"][0]
+            continue
+        break
+    return chain
+
+
+def comes_from_call(fn, operand, name_pattern, transparent=TRANSPARENT):
+    """does the operand's value derive (through transparent calls) from a call whose name matches?"""
+    for o in provenance(fn, operand, transparent):
+        if o[0] == "call" and call_name_matches(o[1], name_pattern):
+            return o
+    return None
+
+
+def decode_fmt_template(v):
+    """decode core::fmt's byte template into [('lit', str) | ('arg', index_or_None)]; None if malformed"""
+    if isinstance(v, str):
+        b = v.encode("utf-8")
+    else:
+        b = bytes(v)
+    out = []
+    i = 0
+    while i < len(b):
+        n = b[i]
+        i += 1
+        if n == 0:
+            if i == len(b):
+                return out
+            return None
+        if n < 128:
+            out.append(("lit", b[i:i + n].decode("utf-8", "replace")))
+            i += n
+        elif n == 128:
+            ln = b[i] | (b[i + 1] << 8)
+            out.append(("lit", b[i + 2:i + 2 + ln].decode("utf-8", "replace")))
+            i += 2 + ln
+        elif n >= 0xC0:
+            skip = (4 if n & 1 else 0) + (2 if n & 2 else 0) + (2 if n & 4 else 0)
+            idx = None
+            i += skip
+            if n & 8:
+                idx = b[i] | (b[i + 1] << 8)
+                i += 2
+            out.append(("arg", idx))
+        else:
+            return None
+    return None
+
+
+def fmt_templates(fn):
+    """yield (bi, call term, decoded template) for every fmt::Arguments construction in fn"""
+    for bi, t in fn.calls():
+        if call_name_matches(t, r"fmt::Arguments::<'a>::new$|fmt::Arguments::<'_>::new$|fmt::Arguments::<'a>::from_str$|fmt::Arguments::<'a>::new_const$"):
+            o = fn.origin(t["args"][0])
+            if o[0] == "const" and o[1].get("kind") == "str":
+                if "from_str" in (t["f"].get("name") or ""):
+                    yield bi, t, [("lit", o[1]["v"])]
+                else:
+                    yield bi, t, decode_fmt_template(o[1]["v"])
+            else:
+                yield bi, t, None
+
+
+# --------------------------------------------------------------------------- language of a boolean predicate fn(&str)
+
+def _san(s):
+    return re.sub(r"[^A-Za-z0-9]+", "_", s).strip("_")
+
+
+def predicate_expr(facts, fn, rl, owners, param=1):
+    """Language decided by a small predicate function over its string parameter, as a prefix boolean
+    expression over languages registered in `rl`.  Atoms: REGEX.is_match(param) and param.is_empty().
+    All acyclic paths are enumerated; any other construct that influences the verdict fails closed."""
+    names = {}
+
+    def atom(t):
+        if is_call_to(t, *REGEX_MATCH):
+            owner = regex_owner_of_receiver(facts, fn, t["args"][0])
+            if owner is None or owner not in owners:
+                raise CheckError("%s: is_match on an unknown regex (%r)" % (fn.name, owner))
+            pv = provenance(fn, t["args"][1])[-1]
+            if not (pv[0] == "param" and pv[1] == param):
+                raise CheckError("%s: is_match on something other than the parameter" % fn.name)
+            n = "RX_" + _san(owner)
+            pats = [p["value"] for s in owners[owner] for p in s["patterns"]]
+            rl.lang(n, union_pattern(pats))
+            names[n] = owner
+            return n
+        if call_name_matches(t, r"str>::is_empty$"):
+            pv = provenance(fn, t["args"][0])[-1]
+            if not (pv[0] == "param" and pv[1] == param):
+                raise CheckError("%s: is_empty on something other than the parameter" % fn.name)
+            rl.lang("EMPTYSTR", "^$")
+            return "EMPTYSTR"
+        return None
+
+    accepting = []
+
+    def val_of(env, op):
+        if op[0] == "k":
+            c = op[1]
+            if c.get("ty") == "bool" and c.get("kind") == "int":
+                return ("const", c["v"] == "1")
+            return ("unknown",)
+        p = op[1]
+        if len(p) == 1:
+            return env.get(p[0], ("unknown",))
+        return ("unknown",)
+
+    def walk(bi, env, conds, seen):
+        if bi in seen:
+            raise CheckError("%s: loop in a predicate function (unsupported shape)" % fn.name)
+        seen = seen | {bi}
+        env = dict(env)
+        b = fn.blocks[bi]
+        for s in b["s"]:
+            if s[0] == "=" and len(s[1]) == 1:
+                rv = s[2]
+                if rv[0] == "use":
+                    env[s[1][0]] = val_of(env, rv[1])
+                elif rv[0] == "un" and rv[1] == "Not":
+                    v = val_of(env, rv[2])
+                    env[s[1][0]] = ("not", v) if v[0] != "unknown" else v
+                else:
+                    env[s[1][0]] = ("unknown",)
+        t = b["t"]
+        k = t["t"]
+        if k == "ret":
+            v = env.get(0, ("unknown",))
+            neg = False
+            while v[0] == "not":
+                neg = not neg
+                v = v[1]
+            if v[0] == "const":
+                if v[1] != neg:
+                    accepting.append(list(conds))
+            elif v[0] == "atom":
+                accepting.append(list(conds) + [(v[1], not neg)])
+            else:
+                raise CheckError("%s: verdict does not come from a recognised test" % fn.name)
+            return
+        if k == "goto":
+            return walk(t["to"], env, conds, seen)
+        if k == "call":
+            a = atom(t)
+            if len(t["dest"]) == 1:
+                env[t["dest"][0]] = ("atom", a) if a else ("unknown",)
+            if t["to"] is None:
+                return
+            return walk(t["to"], env, conds, seen)
+        if k == "switch":
+            v = val_of(env, t["on"])
+            neg = False
+            while v[0] == "not":
+                neg = not neg
+                v = v[1]
+            vals = dict((x, y) for x, y in t["vals"])
+            if t.get("ty") != "bool":
+                raise CheckError("%s: non-boolean switch in predicate" % fn.name)
+            if "0" in vals:
+                f_t, t_t = vals["0"], t["else"]
+            else:
+                t_t, f_t = vals["1"], t["else"]
+            if neg:
+                t_t, f_t = f_t, t_t
+            if v[0] == "const":
+                return walk(t_t if v[1] else f_t, env, conds, seen)
+            if v[0] == "atom":
+                walk(t_t, env, conds + [(v[1], True)], seen)
+                walk(f_t, env, conds + [(v[1], False)], seen)
+                return
+            raise CheckError("%s: branch on an unrecognised test" % fn.name)
+        if k in ("drop", "assert"):
+            return walk(t["to"], env, conds, seen)
+        if k == "unreach":
+            return
+        raise CheckError("%s: unsupported terminator %s in predicate" % (fn.name, k))
+
+    walk(0, {}, [], frozenset())
+
+    def conj(lits):
+        if not lits:
+            return "__utf8"
+        parts = [(n if pos else "! " + n) for n, pos in lits]
+        e = parts[0]
+        for p in parts[1:]:
+            e = "& %s %s" % (e, p)
+        return e
+    if not accepting:
+        return "& __utf8 ! __utf8", names
+    e = conj(accepting[0])
+    for a in accepting[1:]:
+        e = "| %s %s" % (e, conj(a))
+    return e, names
